@@ -131,6 +131,31 @@ fn main() {
                     run_pair(&mut t, &text, None, tpl, &v, &mut stats);
                 }
             }
+            // directed cross product (agreement tier): computed-bound slices E[S:T] with every
+            // pairing of bound shapes -- no output, error, negative, null, several outputs,
+            // document-sourced -- over array and (multi-byte) string subjects reached by navigation
+            {
+                let bounds = ["empty", "error", "1", "-1", "-3", "null", "(0,1)", ".lo", ".a", "(.lo|select(. > 5))", "(.hi|error)", "(.hi|tonumber)"];
+                let subjects = [".xs", ".s", ".", ".xs[1:]", "(.xs,.s)"];
+                let docs = [
+                    r#"{"xs":[10,20,30,40],"s":"h\u00e9llo w\u00f6rld \u2713","lo":1,"hi":"3","a":-3}"#,
+                    r#"{"xs":[],"s":"","lo":0,"hi":"x","a":-1}"#,
+                    r#"{"xs":[[1],{"k":2},"z",null,5],"s":"\ud83d\ude00ab\u00e9","lo":2,"hi":"1","a":-2}"#,
+                ];
+                let mut k = 0usize;
+                for subj in subjects.iter() {
+                    for lo in bounds.iter() {
+                        for hi in bounds.iter() {
+                            k += 1;
+                            let text = format!("{subj}[{lo}:{hi}]");
+                            let doc = docs[k % docs.len()];
+                            if let Some(v) = parse_v(doc) {
+                                run_pair(&mut t, &text, None, "directed:slice", &v, &mut stats);
+                            }
+                        }
+                    }
+                }
+            }
             let n = t.finish();
             println!(
                 "\nSUMMARY {}",
